@@ -1,0 +1,31 @@
+// Copyright The OpenTelemetry Authors
+// SPDX-License-Identifier: Apache-2.0
+
+//go:build verif
+
+package log // import "go.opentelemetry.io/otel/sdk/log"
+
+import "sync/atomic"
+
+// VerifHookFunc receives the name of an instrumentation point and values that
+// were already in scope there. It may block: a blocking hook is a scheduler
+// gate for conformance testing (points reached while a lock is held are only
+// ever used to log an event, never to block). Only built with -tags verif.
+type VerifHookFunc func(point string, args ...any)
+
+var verifHook atomic.Pointer[VerifHookFunc]
+
+// SetVerifHook installs (or, with nil, removes) the hook.
+func SetVerifHook(f VerifHookFunc) {
+	if f == nil {
+		verifHook.Store(nil)
+		return
+	}
+	verifHook.Store(&f)
+}
+
+func verifPoint(point string, args ...any) {
+	if h := verifHook.Load(); h != nil {
+		(*h)(point, args...)
+	}
+}
